@@ -49,9 +49,10 @@ func wiresOf(t *Term) []wire {
 			ws[i] = a[len(a)-1]
 		}
 	default:
+		pz := pathZero[t]
 		for i := range ws {
 			switch {
-			case t.k0>>uint(i)&1 == 1:
+			case (t.k0|pz)>>uint(i)&1 == 1:
 				ws[i] = wire{nil, 0}
 			case t.k1>>uint(i)&1 == 1:
 				ws[i] = wire{nil, 1}
@@ -61,6 +62,53 @@ func wiresOf(t *Term) []wire {
 		}
 	}
 	return ws
+}
+
+// pathZero holds, for the path being executed, bits of base terms that the
+// path condition forces to zero (learned from conjuncts of the form t < K, as
+// left behind by loops like `for x >= 0x80 { ...; x >>= 7 }`).  Terms built
+// while it is in force may be simplified with it; they are only used on this
+// path, under this path condition.  Reset at the start of every path.
+var pathZero = map[*Term]uint64{}
+
+// learnZeroBits records what a new path-condition conjunct says about zero bits.
+func learnZeroBits(c *Term) {
+	var t, k *Term
+	switch {
+	case c.op == "bvult" && c.args[1].isConst():
+		t, k = c.args[0], c.args[1] // t < K
+	case c.op == "not" && c.args[0].op == "bvule" && c.args[0].args[0].isConst():
+		t, k = c.args[0].args[1], c.args[0].args[0] // not (K <= t)
+	case c.op == "=" && c.args[0].sort.k == sBV && (c.args[0].isConst() || c.args[1].isConst()):
+		// t == const: every zero bit of the constant
+		t, k = c.args[0], c.args[1]
+		if t.isConst() {
+			t, k = k, t
+		}
+		ws := wiresOf(t)
+		for p, wr := range ws {
+			if wr.src != nil && k.cval>>uint(p)&1 == 0 {
+				pathZero[wr.src] |= 1 << uint(wr.bit)
+			}
+		}
+		return
+	default:
+		return
+	}
+	if t.sort.k != sBV || k.cval == 0 {
+		return
+	}
+	// t < K  =>  bits at and above bitlen(K-1) are zero
+	n := 0
+	for v := k.cval - 1; v != 0; v >>= 1 {
+		n++
+	}
+	ws := wiresOf(t)
+	for p := n; p < len(ws); p++ {
+		if ws[p].src != nil {
+			pathZero[ws[p].src] |= 1 << uint(ws[p].bit)
+		}
+	}
 }
 
 // fromWires builds the canonical term for a wiring.
@@ -81,8 +129,21 @@ func fromWires(ws []wire) *Term {
 		}
 		src, lo := ws[i].src, ws[i].bit
 		j := i + 1
-		for j < len(ws) && ws[j].src == src && ws[j].bit == lo+(j-i) {
-			j++
+		zmask := src.k0 | pathZero[src]
+		for j < len(ws) {
+			nb := lo + (j - i)
+			if ws[j].src == src && ws[j].bit == nb {
+				j++
+				continue
+			}
+			// a constant 0 where the source's own next bit is known to be 0
+			// continues the slice (so that zext(extract(k-1,0,x)) is x again
+			// once the path condition says x < 2^k)
+			if ws[j].src == nil && ws[j].bit == 0 && nb < src.sort.w && zmask>>uint(nb)&1 == 1 {
+				j++
+				continue
+			}
+			break
 		}
 		n := j - i
 		if lo == 0 && n == src.sort.w {
@@ -321,6 +382,69 @@ func runTermTest(rounds int, seed uint64) (int, string) {
 		ref := build()
 		noWires = false
 		got := build()
+		// path-sensitive simplification: learn facts that hold under one
+		// assignment, rebuild, and compare under that assignment
+		for k := 0; k < 4; k++ {
+			asg := map[string]uint64{}
+			for _, x := range rec[:nv] {
+				v := next()
+				if next()%3 == 0 {
+					v &= maskW(int(next() % 20))
+				}
+				asg["tt"+string(rune('a'+x.q))+string(rune('0'+x.p/8))] = v
+			}
+			pathZero = map[*Term]uint64{}
+			m1 := map[*Term]uint64{}
+			var facts []string
+			for f := 0; f < 4; f++ {
+				i := int(next() % uint64(len(rec)))
+				v, ok := evalTerm(ref[i], asg, m1)
+				if !ok {
+					continue
+				}
+				w := ref[i].sort.w
+				var fact *Term
+				switch next() % 3 {
+				case 0: // t < K with K a power of two above v
+					n := 0
+					for x := v; x != 0; x >>= 1 {
+						n++
+					}
+					if n >= w {
+						continue
+					}
+					fact = mkCmp("bvult", got[i], mkBV(uint64(1)<<uint(n), w))
+				case 1: // not (K <= t)
+					if v > maskW(w)-3 || maskW(w) < 3 {
+						continue
+					}
+					fact = mkNot(mkCmp("bvule", mkBV(v+1+next()%3, w), got[i]))
+				default:
+					fact = mkEq(got[i], mkBV(v, w))
+				}
+				if fact.isConst() {
+					continue
+				}
+				learnZeroBits(fact)
+				facts = append(facts, dumpTerm(fact, 4)+" [v="+itoa(int(v))+"]")
+			}
+			sens := build()
+			m2 := map[*Term]uint64{}
+			for i := range rec {
+				v1, _ := evalTerm(ref[i], asg, m1)
+				v2, ok2 := evalTerm(sens[i], asg, m2)
+				checked++
+				if !ok2 || v1 != v2 {
+					pathZero = map[*Term]uint64{}
+					msg := "path-sensitive mismatch at round " + itoa(r) + " node " + itoa(i) + " op " + rec[i].op + ": ref " + dumpTerm(ref[i], 4) + " got " + dumpTerm(sens[i], 4) + " v1=" + itoa(int(v1)) + " v2=" + itoa(int(v2))
+					for _, f := range facts {
+						msg += "\n   fact " + f
+					}
+					return checked, msg
+				}
+			}
+			pathZero = map[*Term]uint64{}
+		}
 		for k := 0; k < 8; k++ {
 			asg := map[string]uint64{}
 			for _, x := range rec[:nv] {
